@@ -20,7 +20,7 @@ m = dict(
     ),
     engines=[dict(name="vx", path="/verif/check", serves_properties=sorted(PROPERTIES), kind_free_text="extractor (vx/gen.py) + contracts (contracts/*.py) + Verus runner/classifier (vx/run.py, vx/decide.py)")],
     checks=[],
-    notes="Contract-based deductive verification of the real code. Every check re-slices the functions under contract from /repo's working tree, splices the contracts of contracts/*.py, and has Verus discharge every obligation. Exit 0 = all discharged, 1 = a contract obligation fails (VIOLATION), 2 = infrastructure (lost anchor, unsupported construct, resource limit) - never an alarm.",
+    notes="Contract-based deductive verification of the real code. Every check re-slices the functions under contract from /repo's working tree, splices the contracts of contracts/*.py, and has Verus discharge every obligation. Exit 0 = all discharged, 1 = a contract obligation fails (VIOLATION), 2 = undecided (lost anchor, unsupported construct, resource limit, or a proof step that no longer discharges while the exhaustive small-input search of the real code finds no failing input) - never an alarm. The thorough tier repeats the proofs at a higher resource limit and adds the labelled bounded checks: Kani harnesses (C03, C19) and the executable twins of the contract clauses (replay/finder.rs) run through the real crate; bounded results are reported under coverage.bounded and never counted as proved.",
     not_applicable=[],
 )
 for p in ALL:
